@@ -66,10 +66,14 @@ def len_of(I, v):
         return len(v)
     if isinstance(v, SStr):
         return sstr_len(v)
+    if isinstance(v, SHash):
+        return v.nbytes
     if isinstance(v, SBytes):
         return v.length
     if isinstance(v, SList):
         return v.length
+    if listobj(v) is not None:
+        return len(listobj(v))
     if isinstance(v, SObj):
         f = I.class_attr(v.cls, "__len__")
         if f is not None:
@@ -202,7 +206,7 @@ def kind_of(v):
         return "float"
     if isinstance(v, (SStr,)):
         return "bytes" if v.is_bytes else "str"
-    if isinstance(v, (bytes, bytearray, SBytes)):
+    if isinstance(v, (bytes, bytearray, SBytes, SHash)):
         return "bytes"
     if isinstance(v, str):
         return "str"
@@ -271,6 +275,10 @@ def values_equal(I, a, b):
             return a == b
         return norm_bool(to_z3_int(a) == to_z3_int(b))
     if ka in ("bytes", "str"):
+        if isinstance(a, SHash) or isinstance(b, SHash):
+            if isinstance(a, SHash) and isinstance(b, SHash):
+                return norm_bool(a.term == b.term)
+            raise Undecided("comparison of an abstract digest with a byte string")
         if isinstance(a, (bytes, str, bytearray)) and isinstance(b, (bytes, str, bytearray)):
             return a == b
         if isinstance(a, SBytes) or isinstance(b, SBytes):
@@ -416,7 +424,17 @@ def slice_bounds(I, sl, n):
     return lo, hi2
 
 
+def listobj(obj):
+    """python list behind an SObj whose class subclasses list (fields['__list__'])"""
+    if isinstance(obj, SObj) and isinstance(obj.cls, type) and issubclass(obj.cls, list):
+        return obj.fields.setdefault("__list__", [])
+    return None
+
+
 def subscript(I, obj, idx):
+    lo_ = listobj(obj)
+    if lo_ is not None:
+        return subscript(I, lo_, idx)
     if isinstance(obj, Opaque):
         return Opaque(obj.name + "[]")
     if isinstance(idx, Opaque):
@@ -479,6 +497,9 @@ def subscript(I, obj, idx):
 
 
 def store_subscript(I, obj, idx, val):
+    lo_ = listobj(obj)
+    if lo_ is not None:
+        return store_subscript(I, lo_, idx, val)
     if isinstance(obj, dict):
         return ext().dict_set(I, obj, idx, val)
     if isinstance(obj, list):
